@@ -162,3 +162,46 @@ def c02_concat_number_rendering(w, v):
         return False
     obs = w.get('observed') or ''
     return bool(re.search(r'[0-9]{16,}', obs) or re.search(r'[0-9]e[+-][0-9]', obs))
+
+
+def _has_sign_run(text):
+    prev, instr = '', False
+    for ch in text or '':
+        if ch == '"':
+            instr = not instr
+            prev = ch
+            continue
+        if instr or ch.isspace():
+            continue
+        if ch in '+-' and prev in ('+', '-'):
+            return True
+        prev = ch
+    return False
+
+
+@matcher('c01_sign_run_folded')
+def c01_sign_run_folded(w, v):
+    """A run of + / - signs (e.g. `1+-2^2`, `--"3"`, `- -x`) is folded by the
+    tokenizer into a single sign, so the tree is not the one the grammar
+    assigns.  Only spellings that contain such a run are accepted."""
+    kind = v['sig'].split(':')[0]
+    if kind not in ('text', 'value', 'spellings-disagree', 'to_dict', 'name',
+                    'reparse', 'roundtrip'):
+        return False
+    return bool(w.get('sign_run')) and _has_sign_run(w.get('spelling'))
+
+
+@matcher('c01_double_percent_rejected')
+def c01_double_percent_rejected(w, v):
+    """`=2%%` (postfix % applied twice) is rejected: the tokenizer matches the
+    run `%%` as one token that is not an operator."""
+    import re
+    if not (v['sig'].startswith('rejected-valid:FormulaError') or
+            v['sig'].startswith('to_dict:raised:FormulaError')):
+        return False
+    texts = [w.get('spelling') or '']
+    cells = (w.get('case') or {}).get('cells') or {}
+    texts += [x for x in cells.values() if isinstance(x, str)]
+    obs = w.get('observed') or ''
+    return any(re.search(r'%[\s)]*%', t) for t in texts) or \
+        bool(re.search(r'%[\s)]*%', obs))
